@@ -355,6 +355,30 @@ func TestVerifC30Salted(t *testing.T) {
 				st.Violation(rt, "salted seed equals the unsalted seed (salt %q)", salt)
 			}
 		}
+		// the same PRNGSeed OBJECT holding another value (a caller rotating its seed in place, a loop variable):
+		// the derivation depends on the value, not on the object
+		if rapid.Bool().Draw(rt, "reuse_seed_object") {
+			next := vf30GenSeed(rt, "seed2")
+			*seed = *next
+			seedCopy2 := *seed
+			for _, salt := range salts[:2] {
+				got, err := newSaltedPRNGSeed(seed, salt)
+				want := vf30SaltedSeed(seedCopy2[:], salt)
+				if err != nil || got == nil || !bytes.Equal(got[:], want) {
+					st.Violation(rt, "seed object reused with a new value %x: newSaltedPRNGSeed(%q) = %x (err %v), HKDF-SHA3-256(seed,salt) = %x", seedCopy2, salt, got, err, want)
+				}
+				p, err := newPRNGWithSaltedSeed(seed, salt)
+				if err != nil {
+					st.Violation(rt, "newPRNGWithSaltedSeed: %v", err)
+				}
+				buf := make([]byte, 64)
+				p.Read(buf)
+				if !bytes.Equal(buf, vf30Shake256(want, 64)) {
+					st.Violation(rt, "seed object reused with a new value %x: newPRNGWithSaltedSeed(%q) stream differs from SHAKE256(HKDF(seed,salt))", seedCopy2, salt)
+				}
+			}
+			st.Class("salt:seed-object-reused-with-new-value")
+		}
 		distinctPairs := 0
 		for i := range salts {
 			for j := i + 1; j < len(salts); j++ {
